@@ -150,7 +150,54 @@ def variant_reorder(root):
         open(p, "w", encoding="utf-8").write(ast.unparse(tree) + "\n")
 
 
-VARIANTS = {"reformat": variant_reformat, "rename": variant_rename, "lua_ws": variant_lua_ws, "reorder": variant_reorder}
+def _edit(root, rel, old, new, count=1):
+    p = os.path.join(root, rel)
+    s = open(p, encoding="utf-8").read()
+    assert s.count(old) >= 1, (rel, old[:40])
+    open(p, "w", encoding="utf-8").write(s.replace(old, new, count))
+
+
+def variant_edits(root):
+    """a handful of behaviour-preserving hand edits of the kinds a maintainer makes"""
+    pf = PKG + "/parserfns.py"
+    # equivalent length guard
+    _edit(root, pf, 'arg0: str = args[0] if args else ""\n    arg1: str = args[1] if len(args) >= 2 else ""\n    arg2: str = args[2] if len(args) >= 3 else ""\n    v: str',
+          'arg0: str = args[0] if len(args) >= 1 else ""\n    arg1: str = args[1] if len(args) > 1 else ""\n    arg2: str = args[2] if 3 <= len(args) else ""\n    v: str')
+    # a new registered parser function written in the accepted idioms
+    _edit(root, pf, "# This list should include names of predefined parser functions and",
+          'def reverse_fn(\n    ctx: "Wtp", fn_name: str, args: list[str], expander: Callable[[str], str]\n) -> str:\n'
+          '    """Implements a hypothetical #reverse parser function."""\n    v = expander(args[0]).strip() if args else ""\n'
+          '    try:\n        n = int(expander(args[1])) if len(args) > 1 else 0\n    except ValueError:\n        n = 0\n'
+          '    return v[::-1] if n == 0 else v\n\n\n# This list should include names of predefined parser functions and')
+    _edit(root, pf, '    "#isbn": isbn_fn,\n}', '    "#isbn": isbn_fn,\n    "#reverse": reverse_fn,\n}')
+    # a new safe key in the sandbox environment
+    _edit(root, PKG + "/lua/_sandbox_phase1.lua", '    env["select"] = _orig_select\n', '    env["select"] = _orig_select\n    env["_orig_select"] = _orig_select\n')
+    # push/pop pair of the link branch extracted into a helper closure
+    _edit(root, PKG + "/core.py",
+          '                        self.expand_stack.append("[[link]]")\n                        new_args = tuple(\n                            expand_recurse(x, parent, expand_all) for x in args\n                        )\n                        self.expand_stack.pop()\n',
+          '                        new_args = expand_link_args(args)\n')
+    _edit(root, PKG + "/core.py",
+          '            # Main code of expand_recurse()\n',
+          '            def expand_link_args(largs: Sequence[str]) -> tuple[str, ...]:\n                self.expand_stack.append("[[link]]")\n'
+          '                res = tuple(expand_recurse(x, parent, expand_all) for x in largs)\n                self.expand_stack.pop()\n                return res\n\n'
+          '            # Main code of expand_recurse()\n')
+    # comments, blank lines and a docstring added (line numbers shift)
+    _edit(root, PKG + "/parser.py", "def _parser_pop(ctx: \"Wtp\", warn_unclosed: bool) -> None:\n", "\n\n# moved\n\ndef _parser_pop(ctx: \"Wtp\", warn_unclosed: bool) -> None:\n")
+    # Lua locals renamed
+    p2 = os.path.join(root, PKG, "lua/_sandbox_phase2.lua")
+    t = open(p2, encoding="utf-8").read()
+    for a, b in (("is_named", "named_flag"), ("mod_env", "menv"), ("initfn", "init_function"), ("nkey", "next_k")):
+        t = re.sub(r"\b%s\b" % a, b, t)
+    open(p2, "w", encoding="utf-8").write(t)
+    p1 = os.path.join(root, PKG, "lua/_sandbox_phase1.lua")
+    t = open(p1, encoding="utf-8").read()
+    for a, b in (("start_time", "t_start"), ("cached_mod", "cm"), ("json_str", "js")):
+        t = re.sub(r"\b%s\b" % a, b, t)
+    open(p1, "w", encoding="utf-8").write(t)
+
+
+VARIANTS = {"reformat": variant_reformat, "rename": variant_rename, "lua_ws": variant_lua_ws, "reorder": variant_reorder,
+            "edits": variant_edits}
 
 
 def known_pairs():
